@@ -61,7 +61,7 @@ var props = map[string]propMeta{
 	},
 	"C04": {
 		Level:       "exploration",
-		Rule:        "seeded runs with 1-8 inbound messages (mostly exactly-once) from the reference broker, which retransmits PUBLISH (DUP) and PUBREL on reconnect; breaks after client acknowledgements were written but before the broker consumed them; in half of the runs the broker reuses an identifier as soon as its transaction is complete and keeps an in-flight window of 1-3 messages, in half of those storage errors are concentrated on the late operations of a cycle; oracles: no return of a message while its marker is stored, no second return of a message within one process, a message confirmed with PUBREC was returned at some time (a leftover reception record must not swallow the next message with that identifier), every broker-side handshake completes in the quiescence phase." + distinctRule + " non-trivial = a fault fired and the broker retransmitted an exactly-once PUBLISH",
+		Rule:        "seeded runs with 1-8 inbound messages (mostly exactly-once) from the reference broker, which retransmits PUBLISH (DUP) and PUBREL on reconnect; breaks after client acknowledgements were written but before the broker consumed them; in half of the runs the broker reuses an identifier as soon as its transaction is complete and keeps an in-flight window of 1-3 messages, in half of those storage errors are concentrated on the late operations of a cycle; oracles: no return of a message while its marker is stored, no second return of a message within one process, a message confirmed with PUBREC was returned at some time (a leftover reception record must not swallow the next message with that identifier), every broker-side handshake completes in the quiescence phase; family restarts: process stops between delivery, reception record and PUBREC (2-3 incarnations), a message whose PUBREC an earlier incarnation wrote is not returned again." + distinctRule + " non-trivial = a fault fired and the broker retransmitted an exactly-once PUBLISH",
 		Assumptions: flowAssumptions,
 		Probes:      []string{"q2_retransmission_seen", "q2_duplicate_completed", "unread_input_lost", "identifier_reused", "disk_err_before_D"},
 		QuickS:      20, ThoroughS: 300,
@@ -96,14 +96,14 @@ var props = map[string]propMeta{
 	},
 	"C08": {
 		Level:       "exploration",
-		Rule:        "seeded runs with concurrent Publish/Subscribe/Unsubscribe/Ping/persisted publishes plus the reader's own writes and resends; every Write may be split at a drawn byte count with a deadline expiry or a hard error, on pipe-like and TCP-like connections; oracle: each connection's bytes parse (strict independent codec) as whole packets that equal their request, success implies a complete packet." + distinctRule + " non-trivial = a write was split (timeout or hard error)",
+		Rule:        "seeded runs with concurrent Publish/Subscribe/Unsubscribe/Ping/persisted publishes plus the reader's own writes and resends; every Write may be split at a drawn byte count with a deadline expiry or a hard error, on pipe-like and TCP-like connections; 15 % of the publisher iterations first issue a request with an invalid topic (denied, no trace in what the others send); family volatile: the same on a VolatileSession; oracle: each connection's bytes parse (strict independent codec) as whole packets that equal their request, success implies a complete packet (for Ping: a PINGREQ written completely while the call ran)." + distinctRule + " non-trivial = a write was split (timeout or hard error)",
 		Assumptions: flowAssumptions,
 		Probes:      []string{"short_write_timeout", "write_break", "request_success"},
 		QuickS:      20, ThoroughS: 300,
 	},
 	"C11": {
 		Level:       "exploration",
-		Rule:        "seeded runs with 2-7 requester tasks issuing Subscribe/Unsubscribe/Ping (quit nil, open, closed before, closed during), broker failing a subset of filters, connection loss at any point; family ping-slot: 3-5 tasks issuing Ping with every kind of quit behind a busy write lock; family teardown: storage errors in the acknowledgement handlers (record removal only) take a healthy, writable connection down while 3-5 tasks issue requests, Close is a scheduling point of its own, the fault budget is 1-3 so that the last teardown is the one that shows; family id-window: the answer to the first SUBSCRIBE is held while 8,191 UNSUBSCRIBE round trips take the identifier counter once around, then a second SUBSCRIBE with a failing filter; a run that comes to rest with a call outstanding while the environment withholds nothing is judged as the end of a quiescence phase (hung callers); oracles: a result needs that request's own response handed to the client before the return, SubscribeError lists exactly the failed filters in order, every call has returned when the quiescence phase ends." + distinctRule + " non-trivial = a fault fired and a request was answered or a quit was closed during a request",
+		Rule:        "seeded runs with 2-7 requester tasks issuing Subscribe/Unsubscribe/Ping (quit nil, open, closed before, closed during), broker failing a subset of filters, connection loss at any point; family ping-slot: 3-5 tasks issuing Ping with every kind of quit behind a busy write lock; family teardown: storage errors in the acknowledgement handlers (record removal only) take a healthy, writable connection down while 3-5 tasks issue requests, Close is a scheduling point of its own, the fault budget is 1-3 so that the last teardown is the one that shows; family id-window: the answer to the first SUBSCRIBE is held while 8,191 UNSUBSCRIBE round trips take the identifier counter once around, then a second SUBSCRIBE with a failing filter; a run that comes to rest with a call outstanding while the environment withholds nothing is judged as the end of a quiescence phase (hung callers); oracles: a result needs that request's own response handed to the client before the return, SubscribeError lists exactly the failed filters in order, every call has returned when the quiescence phase ends, a closed quit is honoured within 2 s of simulated time also behind a writer that blocks for good." + distinctRule + " non-trivial = a fault fired and a request was answered or a quit was closed during a request",
 		Assumptions: flowAssumptions,
 		Probes:      []string{"answered_request", "answered_ping", "subscribe_error_mapped", "quit_closed_during_request", "identifier_window_wrapped", "pong_meets_unsubmitted_ping", "goroutine_held_back", "healthy_connection_closed_by_client"},
 		QuickS:      20, ThoroughS: 300,
@@ -112,7 +112,7 @@ var props = map[string]propMeta{
 		Level:       "fault_enumeration",
 		Rule:        "family closers: seeded runs of the general flow (publishers, requesters, inbound traffic, fault mix) with 1-3 Close/Disconnect invocations (nil, open and closed quit) started at drawn steps, the later ones right after the first (concurrent); family close-sweep: for a sampled base run of N steps the same seed is re-run with the first closer started at every step 1..min(N,400). Oracles: each call returns (bounded in simulated time and steps) without panic; afterwards every method returns ErrClosed twice, ReadSlices reports ErrClosed, Offline released and Online blocked at every later step and never both released, pending exchanges received ErrClosed and stay open, every connection closed, a successful Disconnect left DISCONNECT as the last packet, no goroutine of the library left (stack census of the bubble). A dial whose context ended meanwhile fails or, in 30 % of the cases, still returns its connection (the cancellation came too late for the dialer)." + distinctRule + " non-trivial = a closer landed while dialing, awaiting CONNACK, resending, with a writer in flight or offline",
 		Assumptions: append([]string{"the close-point sweep is complete over the steps of each sampled base run (up to 400), not over all base runs"}, flowAssumptions...),
-		Probes:      []string{"closer_never-connected", "closer_dialing", "closer_awaiting-connack", "closer_resending", "closer_online", "closer_online-writer-in-flight", "closer_offline", "closer_already-closed", "post_close_probe", "exchange_got_errclosed", "disconnect_succeeded", "dial_completed_after_cancel"},
+		Probes:      []string{"closer_never-connected", "closer_dialing", "closer_awaiting-connack", "closer_resending", "closer_online", "closer_online-writer-in-flight", "closer_offline", "closer_already-closed", "post_close_probe", "exchange_got_errclosed", "disconnect_succeeded", "dial_completed_after_cancel", "dial_hang"},
 		QuickS:      25, ThoroughS: 400,
 	},
 	"C13": {
@@ -124,7 +124,7 @@ var props = map[string]propMeta{
 	},
 	"C14": {
 		Level:       "exploration",
-		Rule:        "seeded runs of every request method against every client state reached by the fault mix, with quit timing drawn; oracle over every API return: documented class per method, not-submitted classes leave no byte of the request's unique marker on any connection, quit classes only after quit, rejected persisted publishes never transmitted, never holding a slot and never stored." + distinctRule + " non-trivial = a fault fired and a limbo or not-submitted class was returned",
+		Rule:        "seeded runs of every request method against every client state reached by the fault mix, with quit timing drawn; oracle over every API return: documented class per method, not-submitted classes leave no byte of the request's unique marker on any connection, quit classes only after quit, rejected persisted publishes never transmitted, never holding a slot and never stored; family closing: requests in flight when Close/Disconnect lands." + distinctRule + " non-trivial = a fault fired and a limbo or not-submitted class was returned",
 		Assumptions: flowAssumptions,
 		Probes:      []string{"class_ErrSubmit", "class_ErrBreak", "class_ErrDown", "class_ErrCanceled", "class_ErrAbandoned", "class_ErrMax"},
 		QuickS:      20, ThoroughS: 300,
@@ -166,7 +166,7 @@ var props = map[string]propMeta{
 	},
 	"C18": {
 		Level:       "exploration",
-		Rule:        "seeded connect histories: dial failures and hangs, breaks at any point of CONNECT/CONNACK/resend, refused CONNACK with any return code, clean session on or off, requests of every type issued in each phase; oracles: CONNECT first and reflecting the Config, nothing before an accepting CONNACK, clean session only until the first established connection, refused connections closed and reported, new requests only after the resend, ErrDown only after trouble, no ReadSlices error that blames a CONNACK of the reference broker (its sessions follow the clean-session lifetime rule: a session created with clean session ends with its connection, so session-present is 0 on the first reconnect and 1 from the second on)." + distinctRule + " non-trivial = a connect failed, was refused, or a reconnect happened",
+		Rule:        "seeded connect histories: dial failures and hangs, breaks at any point of CONNECT/CONNACK/resend, refused CONNACK with any return code, clean session on or off, requests of every type issued in each phase; oracles: CONNECT first and reflecting the Config, nothing before an accepting CONNACK, clean session only until the first established connection, refused connections closed and reported, new requests only after the resend, ErrDown only after trouble, a request issued during a connect attempt does not outlast the failed attempt by more than a second of idle backoff while the write lock is free, no ReadSlices error that blames a CONNACK of the reference broker (its sessions follow the clean-session lifetime rule: a session created with clean session ends with its connection, so session-present is 0 on the first reconnect and 1 from the second on)." + distinctRule + " non-trivial = a connect failed, was refused, or a reconnect happened",
 		Assumptions: flowAssumptions,
 		Probes:      []string{"refused_connack_closed", "reconnect_without_clean", "dial_fail", "dial_hang"},
 		QuickS:      20, ThoroughS: 300,
